@@ -218,36 +218,66 @@ def chars_ideo():
 
 # (cmap, codec, collection): frozen number of in-scope characters (kana, hangul, ideographs), measured on the
 # snapshot tree; a lower number on a later tree means CMap / codec coverage was lost.
-CODEC_PAIRS: List[Tuple[str, str, str]] = [
-    ("90ms-RKSJ-H", "cp932", "Adobe-Japan1"),
-    ("EUC-H", "euc_jp", "Adobe-Japan1"),
-    ("UniJIS-UTF16-H", "utf-16-be", "Adobe-Japan1"),
-    ("UniJIS-UCS2-H", "utf-16-be", "Adobe-Japan1"),
-    ("UniJIS-UTF8-H", "utf-8", "Adobe-Japan1"),
-    ("UniJIS-UTF32-H", "utf-32-be", "Adobe-Japan1"),
-    ("GBK-EUC-H", "gbk", "Adobe-GB1"),
-    ("GB-EUC-H", "gb2312", "Adobe-GB1"),
-    ("UniGB-UCS2-H", "utf-16-be", "Adobe-GB1"),
-    ("UniGB-UTF16-H", "utf-16-be", "Adobe-GB1"),
-    ("UniGB-UTF8-H", "utf-8", "Adobe-GB1"),
-    ("UniGB-UTF32-H", "utf-32-be", "Adobe-GB1"),
-    ("B5pc-H", "big5", "Adobe-CNS1"),
-    ("ETen-B5-H", "big5", "Adobe-CNS1"),
-    ("UniCNS-UCS2-H", "utf-16-be", "Adobe-CNS1"),
-    ("UniCNS-UTF16-H", "utf-16-be", "Adobe-CNS1"),
-    ("UniCNS-UTF8-H", "utf-8", "Adobe-CNS1"),
-    ("UniCNS-UTF32-H", "utf-32-be", "Adobe-CNS1"),
-    ("KSC-EUC-H", "euc_kr", "Adobe-Korea1"),
-    ("KSCms-UHC-H", "cp949", "Adobe-Korea1"),
-    ("UniKS-UCS2-H", "utf-16-be", "Adobe-Korea1"),
-    ("UniKS-UTF16-H", "utf-16-be", "Adobe-Korea1"),
-    ("UniKS-UTF8-H", "utf-8", "Adobe-Korea1"),
-    ("UniKS-UTF32-H", "utf-32-be", "Adobe-Korea1"),
+# (cmap, codec, collection, character classes: k = kana, h = hangul, i = unified ideographs).  Big5 proper has no
+# kana; Python's big5 codec and the ETen vendor extension disagree on rows C6-C8, so the Big5 pairs are judged on
+# ideographs only.
+CODEC_PAIRS: List[Tuple[str, str, str, str]] = [
+    ("90ms-RKSJ-H", "cp932", "Adobe-Japan1", "khi"),
+    ("EUC-H", "euc_jp", "Adobe-Japan1", "khi"),
+    ("UniJIS-UTF16-H", "utf-16-be", "Adobe-Japan1", "khi"),
+    ("UniJIS-UCS2-H", "utf-16-be", "Adobe-Japan1", "khi"),
+    ("UniJIS-UTF8-H", "utf-8", "Adobe-Japan1", "khi"),
+    ("UniJIS-UTF32-H", "utf-32-be", "Adobe-Japan1", "khi"),
+    ("GBK-EUC-H", "gbk", "Adobe-GB1", "khi"),
+    ("GB-EUC-H", "gb2312", "Adobe-GB1", "khi"),
+    ("UniGB-UCS2-H", "utf-16-be", "Adobe-GB1", "khi"),
+    ("UniGB-UTF16-H", "utf-16-be", "Adobe-GB1", "khi"),
+    ("UniGB-UTF8-H", "utf-8", "Adobe-GB1", "khi"),
+    ("UniGB-UTF32-H", "utf-32-be", "Adobe-GB1", "khi"),
+    ("B5pc-H", "big5", "Adobe-CNS1", "i"),
+    ("ETen-B5-H", "big5", "Adobe-CNS1", "i"),
+    ("UniCNS-UCS2-H", "utf-16-be", "Adobe-CNS1", "khi"),
+    ("UniCNS-UTF16-H", "utf-16-be", "Adobe-CNS1", "khi"),
+    ("UniCNS-UTF8-H", "utf-8", "Adobe-CNS1", "khi"),
+    ("UniCNS-UTF32-H", "utf-32-be", "Adobe-CNS1", "khi"),
+    ("KSC-EUC-H", "euc_kr", "Adobe-Korea1", "khi"),
+    ("KSCms-UHC-H", "cp949", "Adobe-Korea1", "khi"),
+    ("UniKS-UCS2-H", "utf-16-be", "Adobe-Korea1", "khi"),
+    ("UniKS-UTF16-H", "utf-16-be", "Adobe-Korea1", "khi"),
+    ("UniKS-UTF8-H", "utf-8", "Adobe-Korea1", "khi"),
+    ("UniKS-UTF32-H", "utf-32-be", "Adobe-Korea1", "khi"),
 ]
-COVERAGE: Dict[str, int] = {}  # filled below (frozen)
+DATA = os.path.join(os.path.dirname(os.path.dirname(os.path.abspath(__file__))), "data", "c07_cjk.json")
+_FROZEN: Dict[str, Any] = {}
 
 
-def run_codec(cmapname: str, codec: str, coll: str, st) -> None:
+def frozen() -> Dict[str, Any]:
+    """data/c07_cjk.json: {"coverage": {cmap: in-scope count}, "gaps": {"coll|cid|U+XXXX": observed}} measured once
+    on the snapshot tree.  ``coverage`` keeps lost CMap entries from being silently excused; ``gaps`` lets the
+    data defects of the to-unicode pickles that exist on the snapshot be reported under one signature per
+    (collection, kind) while any *other* mismatch gets its own per-code-point signature."""
+    if not _FROZEN:
+        import json
+
+        with open(DATA) as f:
+            _FROZEN.update(json.load(f))
+    return _FROZEN
+
+
+def gap_kind(got: Any) -> str:
+    if isinstance(got, str):
+        if got and all(0x2E80 <= ord(c) <= 0x2FDF or 0x31C0 <= ord(c) <= 0x31EF for c in got):
+            return "radical-or-stroke-instead-of-unified-ideograph"
+        return "other-character"
+    return str(got[0])
+
+
+def pair_classes(cmapname: str) -> str:
+    base = cmapname[:-2] + "-H"
+    return next(p[3] for p in CODEC_PAIRS if p[0] == base)
+
+
+def run_codec(cmapname: str, codec: str, coll: str, st, collect=None) -> None:
     from pdfminer.cmapdb import CMapDB
 
     vertical = is_vertical_name(cmapname)
@@ -256,7 +286,9 @@ def run_codec(cmapname: str, codec: str, coll: str, st) -> None:
     umap = CMapDB.get_unicode_map(coll, vertical)
     mism: List[Tuple[int, bytes, Any, Any]] = []
     inscope = 0
-    for cp in chars_kana() + chars_hangul() + chars_ideo():
+    cls = pair_classes(cmapname)
+    cps = (chars_kana() if "k" in cls else []) + (chars_hangul() if "h" in cls else []) + (chars_ideo() if "i" in cls else [])
+    for cp in cps:
         ch = chr(cp)
         st.states += 1
         st.transitions += 1
@@ -283,15 +315,27 @@ def run_codec(cmapname: str, codec: str, coll: str, st) -> None:
             got = ("exc", exc_sig(e))
         st.case(None, nontrivial=True, outcome=(cp if got == ch else (cp, repr(got))))
         if got != ch:
-            mism.append((cp, b, ch, got))
+            mism.append((cp, b, ch, got, flat[b]))
     st.add("codec_in_scope:" + cmapname, inscope)
-    for cp, b, ch, got in mism:
-        sig = f"C07/codec-roundtrip:{coll}:{cmapname}:U+{cp:04X}" if len(mism) <= 16 else f"C07/codec-roundtrip:{coll}:{cmapname}:many"
+    if collect is not None:
+        collect["coverage"][cmapname] = inscope
+        for cp, b, ch, got, cid in mism:
+            collect["gaps"][f"{coll}|{cid}|U+{cp:04X}"] = repr(got)
+        return
+    fz = frozen()
+    fresh = [m for m in mism if fz["gaps"].get(f"{coll}|{m[4]}|U+{m[0]:04X}") != repr(m[3])]
+    for cp, b, ch, got, cid in mism:
+        if fz["gaps"].get(f"{coll}|{cid}|U+{cp:04X}") == repr(got):
+            sig = f"C07/cjk-data:{coll}:{gap_kind(got)}"
+        elif len(fresh) <= 32:
+            sig = f"C07/codec-roundtrip:{coll}:{cmapname}:U+{cp:04X}"
+        else:
+            sig = f"C07/codec-roundtrip:{coll}:{cmapname}:many"
         st.violation(sig, {"family": "codec", "cmap": cmapname, "codec": codec, "coll": coll, "cp": cp}, ch, got,
-                     f"U+{cp:04X} encoded by {codec} as {b.hex()} -> {cmapname} -> {coll} does not come back")
-    frozen = COVERAGE.get(cmapname)
-    if frozen is not None and inscope < frozen:
-        st.violation(f"C07/codec-coverage-lost:{cmapname}", {"family": "codec-coverage", "cmap": cmapname, "codec": codec, "coll": coll}, frozen, inscope,
+                     f"U+{cp:04X} encoded by {codec} as {b.hex()} -> {cmapname} -> CID {cid} -> {coll} does not come back")
+    want = fz["coverage"].get(cmapname)
+    if want is not None and inscope < want:
+        st.violation(f"C07/codec-coverage-lost:{cmapname}", {"family": "codec-coverage", "cmap": cmapname, "codec": codec, "coll": coll}, want, inscope,
                      "fewer characters in scope than on the snapshot tree")
 
 
@@ -354,7 +398,7 @@ def compare_doc(pdf: bytes, expected: List[Dict[str, Any]], vertical: bool, sigb
         }.get(es, "C07/exception:" + es)
         return [(sig, -1, f"{len(expected)} glyphs", f"{type(e).__name__}: {e}", "document raised")], ("exc", es)
     if len(g) != len(expected):
-        sig = classify("count", None, None) if classify else sigbase + ":glyph-count"
+        sig = (classify("count", None, None) if classify else None) or sigbase + ":glyph-count"
         return [(sig, -1, [e["text"] for e in expected], [x[0] for x in g], "number of glyphs")], ("count", len(g))
     viol = []
     px, py = Fraction(X0), Fraction(Y0)
@@ -367,7 +411,7 @@ def compare_doc(pdf: bytes, expected: List[Dict[str, Any]], vertical: bool, sigb
         if not (R.close(m[4], px) and R.close(m[5], py)):
             viol.append(((classify("pen", e, (m[4], m[5])) if classify else None) or f"{sigbase}:pen-position", i, (float(px), float(py)), (m[4], m[5]), f"pen position of glyph {i}"))
         if vertical and e.get("vx") is not None and not R.close(bbox[0], px - e["vx"] * FS / 1000):
-            viol.append((f"{sigbase}:vertical-origin-x", i, float(px - e["vx"] * FS / 1000), bbox[0], f"x0 of glyph {i} (position vector vx={e['vx']})"))
+            viol.append(((classify("vx", e, bbox[0]) if classify else None) or f"{sigbase}:vertical-origin-x", i, float(px - e["vx"] * FS / 1000), bbox[0], f"x0 of glyph {i} (position vector vx={e['vx']})"))
         if vertical:
             py += e["adv"]
         else:
@@ -381,6 +425,9 @@ def record_doc(st, fam: str, key, pdf: bytes, expected, vertical: bool, sigbase:
     nt = any(not e["text"].startswith("(cid:") for e in expected) or any(e["adv"] != FS for e in expected)
     st.case((fam, key), nontrivial=nt, outcome=outcome)
     for sig, i, exp, ob, what in viol:
+        if st.viol_counts[sig] >= st.MAX_VIOL_PER_SIG:
+            st.viol_counts[sig] += 1  # counted, not stored
+            continue
         st.violation(sig, {"family": "doc", "sub": fam, "desc": desc, "pdf": pdf, "vertical": vertical, "sigbase": sigbase, "index": i,
                            "expected": [[e["text"], e["adv"], e.get("vx"), e.get("tag", ""), e.get("wtag", ""), e.get("note", "")] for e in expected]}, exp, ob, what)
 
@@ -701,6 +748,16 @@ def build_w2(seq, dw2i, enci):
     return pdf, exp, True
 
 
+def make_classify_w2(seq):
+    indirect = any(W2_POOL()[i][0] == "reflist" or (W2_POOL()[i][0] == "range" and isinstance(W2_POOL()[i][3][0], tuple)) for i in seq)
+
+    def classify(kind, e, got):
+        # an indirect element that is skipped misaligns everything parsed after it
+        return "C07/W2-indirect-element-ignored" if indirect else None
+
+    return classify
+
+
 # ------------------------------------------------------------------ ttf family
 def ttf_fmt0(mapping: Dict[int, int]) -> bytes:
     arr = bytes(mapping.get(c, 0) for c in range(256))
@@ -802,7 +859,7 @@ def build_ttf(sub, lay):
         tabs = [(0, 3, ttf_fmt0(c2g))]
     g2c = {g: c for c, g in c2g.items()}
     assert len(g2c) == len(c2g)
-    gids = sorted(g2c) + [3, 150]
+    gids = sorted(g2c) + [3, 150, 100, 232]  # 100.. / 232: targets of the symbol and Macintosh decoy subtables
     exp = []
     for gid in gids:
         astral = gid in g2c and g2c[gid] > 0xFFFF
@@ -834,7 +891,7 @@ COLL_SAMPLE = {"Adobe-Japan1": "あア亜一", "Adobe-GB1": "啊一丁", "Adobe-
 
 
 def coll_cases():
-    for cm, codec, coll in CODEC_PAIRS:
+    for cm, codec, coll, _ in CODEC_PAIRS:
         yield ("coll", cm, codec, coll)
         v = cm[:-2] + "-V"
         if os.path.exists(os.path.join(cmap_dir(), v + ".pickle.gz")):
@@ -854,6 +911,41 @@ def build_coll(cm, codec, coll):
             exp.append({"text": ch, "adv": Fraction(-FS if vertical else FS), "tag": "collection", "note": f"code {c.hex()} cid {flat[c]}"})
     reg, order = coll.split("-")
     pdf = type0_doc(cm, [b"".join(keep)], ros=(reg, order, 2), sub="CIDFontType0")
+    return pdf, exp, vertical
+
+
+# one-byte identity CMaps: ToUnicode with one-byte sources, W / W2 keyed by the byte value
+def onebyte_cases():
+    for enc in ("OneByteIdentityH", "OneByteIdentityV"):
+        for tou in (False, True):
+            for w in (False, True):
+                yield ("onebyte", enc, tou, w)
+
+
+def build_onebyte(enc, with_tou, with_w):
+    vertical = is_vertical_name(enc)
+    entries = [("char", b"\x41", "X"), ("range", b"\x80", b"\x82", "Ā"), ("array", b"\xfe", b"\xff", ["YZ", "\U0001f600"])]
+    m = tou_model(entries) if with_tou else {}
+    codes = [b"\x41", b"\x42", b"\x80", b"\x81", b"\x82", b"\xfe", b"\xff", b"\x00"]
+    extra: Dict[str, Any] = {}
+    wm: Dict[int, Fraction] = {}
+    vxm: Dict[int, Fraction] = {}
+    if with_w and not vertical:
+        extra = {"W": [0x41, [300], 0x80, 0x81, 700], "DW": 400}
+        wm = {0x41: Fraction(300), 0x80: Fraction(700), 0x81: Fraction(700)}
+    elif with_w:
+        extra = {"W2": [0x41, [-300, 250, 800], 0x80, 0x81, -700, 260, 810], "DW2": [800, -900]}
+        wm = {0x41: Fraction(-300), 0x80: Fraction(-700), 0x81: Fraction(-700)}
+        vxm = {0x41: Fraction(250), 0x80: Fraction(260), 0x81: Fraction(260)}
+    default = Fraction(-1000 if vertical else 1000)
+    if with_w:
+        default = Fraction(-900 if vertical else 400)
+    exp = []
+    for c in codes:
+        cid = c[0]
+        exp.append({"text": m.get(c, "(cid:%d)" % cid), "adv": wm.get(cid, default) * FS / 1000, "vx": vxm.get(cid), "tag": "tounicode" if c in m else "unmapped",
+                    "wtag": "W" if cid in wm else "DW", "note": f"code {c.hex()}"})
+    pdf = type0_doc(enc, [b"".join(codes)], tou=tou_stream(entries, "canonical", ((b"\x00", b"\xff"),)) if with_tou else None, extra=extra)
     return pdf, exp, vertical
 
 
@@ -888,13 +980,16 @@ def doc_case(c):
         return pdf, exp, v, "C07/widths", {"items": list(c[1]), "DW": c[2], "encoding": W_ENCODINGS[c[3]][0]}, None
     if kind == "v":
         pdf, exp, v = build_w2(c[1], c[2], c[3])
-        return pdf, exp, v, "C07/widths2", {"items": list(c[1]), "DW2": DW2S[c[2]], "encoding": V_ENCODINGS[c[3]]}, None
+        return pdf, exp, v, "C07/widths2", {"items": list(c[1]), "DW2": DW2S[c[2]], "encoding": V_ENCODINGS[c[3]]}, make_classify_w2(c[1])
     if kind == "ttf":
         pdf, exp, v, _ = build_ttf(c[1], c[2])
         return pdf, exp, v, "C07/truetype-cmap", {"segments": list(c[1]), "layout": c[2]}, make_classify_ttf(c[1], c[2])
     if kind == "coll":
         pdf, exp, v = build_coll(c[1], c[2], c[3])
         return pdf, exp, v, "C07/collection", {"cmap": c[1], "codec": c[2], "collection": c[3]}, None
+    if kind == "onebyte":
+        pdf, exp, v = build_onebyte(c[1], c[2], c[3])
+        return pdf, exp, v, "C07/onebyte-identity", {"encoding": c[1], "tounicode": c[2], "widths": c[3]}, None
     if kind == "odd":
         pdf, exp, v = build_odd(c[1], c[2])
         return pdf, exp, v, "C07/odd-length", {"encoding": c[1], "string": c[2]}, None
@@ -910,6 +1005,7 @@ def all_doc_cases(tier: str) -> List[tuple]:
     out += list(ttf_cases())
     out += list(coll_cases())
     out += list(odd_cases())
+    out += list(onebyte_cases())
     return out
 
 
@@ -918,9 +1014,9 @@ def shards(tier):
     names = list(IDENTITY2[:2]) + list(IDENTITY1) + all_cmap_names()
     per = 3 if tier == "quick" else 2
     out = [("seg", tuple(names[i : i + per])) for i in range(0, len(names), per)]
-    pairs = list(CODEC_PAIRS)
+    pairs = [p[:3] for p in CODEC_PAIRS]
     if BOUNDS[tier]["vertical_codec"]:
-        for cm, codec, coll in CODEC_PAIRS:
+        for cm, codec, coll, _ in CODEC_PAIRS:
             v = cm[:-2] + "-V"
             if os.path.exists(os.path.join(cmap_dir(), v + ".pickle.gz")):
                 pairs.append((v, codec, coll))
@@ -1024,6 +1120,8 @@ def replay(case):
             classify = classify_tou_predef
         elif d["kind"] == "ttf":
             classify = make_classify_ttf(tuple(d["segments"]), d["layout"])
+        elif d["kind"] == "v":
+            classify = make_classify_w2(tuple(d["items"]))
         viol, _ = compare_doc(case["pdf"], exp, case["vertical"], case["sigbase"], classify)
         for sig, i, e, g, what in viol:
             if i == case["index"]:
